@@ -209,6 +209,12 @@ class Interp:
     def classref(self, qualname):
         if qualname in self._classrefs:
             return self._classrefs[qualname]
+        from .spec import SYNTH_CLASSES
+        if qualname in SYNTH_CLASSES:
+            cr = ClassRef(qualname, None, None)
+            cr.bases_override = SYNTH_CLASSES[qualname]
+            self._classrefs[qualname] = cr
+            return cr
         try:
             m, node = repo.find(qualname)
         except KeyError:
@@ -677,6 +683,10 @@ class Interp:
 
     def class_mro(self, cref):
         out = [cref]
+        if getattr(cref, "bases_override", None):
+            for b in cref.bases_override:
+                out.extend(self.class_mro(self.classref(b)))
+            return out
         if cref.node is not None:
             for b in cref.node.bases:
                 try:
@@ -929,6 +939,11 @@ class Interp:
             nfr = Frame(c.module, c.node, "<lambda>", loc, depth)
             nfr.closure_env = c.env
             return self.eval(c.node.body, nfr)
+        for d in c.node.decorator_list:
+            dn = d.id if isinstance(d, ast.Name) else (d.attr if isinstance(d, ast.Attribute) else "?")
+            if dn not in ("staticmethod", "classmethod", "property", "abstractmethod"):
+                raise Unsupported("decorator @%s on %s is not modelled (it may change the function's meaning)"
+                                  % (dn, c.qualname or c.node.name), node)
         loc = self.bind_args(c.node, args, kwargs, node, c)
         nfr = Frame(c.module, c.node, c.qualname or c.node.name, loc, depth, cls=c.cls)
         nfr.closure_env = c.env
@@ -1366,7 +1381,12 @@ class Interp:
             fr.locals[n] = self.fresh_like(fr.locals[n], n, st)
         for n in sorted(mutated):
             if n in fr.locals and not _immutable(fr.locals[n]):
-                self.havoc_object(fr.locals[n], n, st)
+                v = fr.locals[n]
+                if isinstance(v, Obj):
+                    fields = self.obj_write_set(v, mutated[n])
+                    self.havoc_object(v, n, st, fields)
+                else:
+                    self.havoc_object(v, n, st)
         if fr.yielded is not None and _contains_yield(st):
             if isinstance(fr.yielded, PyList):
                 raise Unsupported("yield inside an invariant loop needs Contract.yields (element type)", st)
@@ -1400,7 +1420,65 @@ class Interp:
             return r
         raise Unsupported("cannot havoc variable %r = %r (declare its type in the loop spec)" % (name, v), node)
 
-    def havoc_object(self, v, name, node):
+    def obj_write_set(self, o, reasons):
+        """Fields of heap object o that a loop body may write, from the syntactic reasons collected by
+        _assigned_in: ('attr', f) direct store, ('call', m) method call, ('item',) subscript store."""
+        fields = set()
+        seen = set()
+
+        def method_writes(cref, mname):
+            if (cref.qualname, mname) in seen:
+                return
+            seen.add((cref.qualname, mname))
+            q = None
+            meth = self.find_method(cref, mname)
+            if meth is None:
+                if mname in o.fields:  # call on a field value, e.g. self.thetas.append
+                    fields.add(mname)
+                    return
+                fields.add("*")
+                return
+            kind, clo = meth
+            ct = REGISTRY.get(clo.qualname)
+            if ct is not None and not ct.inline:
+                mf = getattr(ct, "modifies_fields", None)
+                if mf is None:
+                    fields.add("*")
+                else:
+                    fields.update(mf)
+                return
+            if clo.node is None:
+                fields.add("*")
+                return
+            selfname = clo.node.args.args[0].arg if clo.node.args.args else None
+            names, mut = _assigned_in_body(clo.node.body)
+            for r in mut.get(selfname, ()):
+                if r[0] == "attr":
+                    fields.add(r[1])
+                elif r[0] == "call":
+                    method_writes(cref, r[1])
+                else:
+                    fields.add("*")
+            # objects passed elsewhere are not tracked: calls with self as argument
+            for n2 in ast.walk(clo.node):
+                if isinstance(n2, ast.Call):
+                    for a in n2.args:
+                        if isinstance(a, ast.Name) and a.id == selfname:
+                            fields.add("*")
+
+        for r in reasons:
+            if r[0] == "attr":
+                fields.add(r[1])
+            elif r[0] == "call":
+                if isinstance(o.cls, ClassRef):
+                    method_writes(o.cls, r[1])
+                else:
+                    fields.add("*")
+            else:
+                fields.add("*")
+        return fields
+
+    def havoc_object(self, v, name, node, fields=None):
         ctx = self.ctx
         if isinstance(v, SymList):
             n = ctx.fresh(name + "_len", Int)
@@ -1409,6 +1487,8 @@ class Interp:
             return
         if isinstance(v, Obj):
             for f, x in list(v.fields.items()):
+                if fields is not None and "*" not in fields and f not in fields:
+                    continue
                 if isinstance(x, (Obj, SymList, PyList, PyDict)):
                     self.havoc_object(x, "%s.%s" % (name, f), node)
                 elif isinstance(x, (Closure, ClassRef, Builtin, ModuleRef, str)) or x is None:
@@ -1544,50 +1624,73 @@ MUTATORS = {"append", "extend", "add", "update", "pop", "remove", "insert", "cle
 
 
 def _assigned_in(loop):
-    """Names (re)bound inside a loop, and names whose object is mutated in place."""
-    names, mutated = set(), set()
-
-    def target(t):
-        if isinstance(t, ast.Name):
-            names.add(t.id)
-        elif isinstance(t, (ast.Tuple, ast.List)):
-            for e in t.elts:
-                target(e)
-        elif isinstance(t, ast.Starred):
-            target(t.value)
-        elif isinstance(t, (ast.Attribute, ast.Subscript)):
-            b = t
-            while isinstance(b, (ast.Attribute, ast.Subscript)):
-                b = b.value
-            if isinstance(b, ast.Name):
-                mutated.add(b.id)
-
     body = loop.body + getattr(loop, "orelse", [])
+    names, mutated = _assigned_in_body(body)
     if isinstance(loop, ast.For):
-        target(loop.target)
+        _target(loop.target, names, mutated)
+    return names, mutated
+
+
+def _target(t, names, mutated):
+    if isinstance(t, ast.Name):
+        names.add(t.id)
+    elif isinstance(t, (ast.Tuple, ast.List)):
+        for e in t.elts:
+            _target(e, names, mutated)
+    elif isinstance(t, ast.Starred):
+        _target(t.value, names, mutated)
+    elif isinstance(t, (ast.Attribute, ast.Subscript)):
+        _mut_reason(t, mutated, store=True)
+
+
+def _mut_reason(t, mutated, store=False, call=None):
+    """record why the root object of access path t is mutated"""
+    path = []
+    b = t
+    while isinstance(b, (ast.Attribute, ast.Subscript)):
+        path.append(b)
+        b = b.value
+    if not isinstance(b, ast.Name):
+        return
+    path.reverse()  # outermost-from-root first
+    if not path:
+        if call is not None:
+            mutated.setdefault(b.id, set()).add(("item",))
+        return
+    first = path[0]
+    if isinstance(first, ast.Attribute):
+        if len(path) == 1 and call is not None:
+            mutated.setdefault(b.id, set()).add(("call", first.attr))
+        else:
+            mutated.setdefault(b.id, set()).add(("attr", first.attr))
+    else:
+        mutated.setdefault(b.id, set()).add(("item",))
+
+
+def _assigned_in_body(body):
+    """Names (re)bound inside statements, and {name: reasons} for names whose object is mutated in place."""
+    names, mutated = set(), {}
     for st in body:
         for n in ast.walk(st):
             if isinstance(n, ast.Assign):
                 for t in n.targets:
-                    target(t)
+                    _target(t, names, mutated)
             elif isinstance(n, (ast.AugAssign, ast.AnnAssign)):
-                target(n.target)
+                _target(n.target, names, mutated)
                 if isinstance(n, ast.AugAssign) and isinstance(n.target, ast.Name):
-                    mutated.add(n.target.id)  # in-place ops on arrays (a += ..) mutate the object
+                    mutated.setdefault(n.target.id, set()).add(("item",))  # a += .. mutates arrays in place
             elif isinstance(n, ast.For):
-                target(n.target)
+                _target(n.target, names, mutated)
             elif isinstance(n, ast.With):
                 for it in n.items:
                     if it.optional_vars is not None:
-                        target(it.optional_vars)
+                        _target(it.optional_vars, names, mutated)
             elif isinstance(n, ast.NamedExpr):
-                target(n.target)
+                _target(n.target, names, mutated)
+            elif isinstance(n, ast.Delete):
+                for t in n.targets:
+                    _target(t, names, mutated)
             elif isinstance(n, ast.Call) and isinstance(n.func, ast.Attribute):
-                b = n.func.value
-                if n.func.attr in MUTATORS or True:
-                    # any method call may mutate its receiver unless the receiver is a module/known pure
-                    while isinstance(b, (ast.Attribute, ast.Subscript)):
-                        b = b.value
-                    if isinstance(b, ast.Name):
-                        mutated.add(b.id)
+                # any method call may mutate its receiver
+                _mut_reason(n.func, mutated, call=True)
     return names, mutated
